@@ -15,11 +15,15 @@ import FuelVerif.Basic.Util
 namespace FuelVerif.Alu
 open FuelVerif.Gen.AluArgs
 
-/-- registers, memory, and the previous frame's `$hp` (`frames.last()…[HP]`, `VM_MAX_RAM` in an external context) -/
+/-- registers, memory, and the `$hp` saved in each call frame of `Interpreter::frames`
+(`frame.registers()[RegId::HP]`, outermost first; empty in a script or predicate) -/
 structure VmSt where
   regs : Regs
   mem : Mem
-  prevHp : Nat
+  frames : List Nat
+
+/-- `OwnershipRegisters::new`: `prev_hp = vm.frames.last().map(|frame| frame.registers()[RegId::HP]).unwrap_or(VM_MAX_RAM)` -/
+def VmSt.prevHp (s : VmSt) : Nat := s.frames.getLast?.getD vmMaxRam
 
 abbrev WOut := VmSt × Option Panic
 
